@@ -444,8 +444,9 @@ TAIL_ORDER = list(TAILS)
 # locals dicts, same `builtins` module).  Between the inputs the name under test is added to /
 # removed from one of the three places a session name can live: B = the builtins module,
 # G = the session globals, L = the locals mapping passed to exec.  The change is made either by the
-# harness between two inputs (mode "h": setattr(builtins, ...), dict stores) or by an input of its
-# own (mode "s": `import builtins; builtins.n = ...`, `n = ...`, `del n`).  After every change the
+# harness between two inputs (mode letter "h": setattr(builtins, ...), dict stores) or by an input of
+# its own (mode letter "s": `import builtins; builtins.n = ...`, `n = ...`, `del n`); the mode is a
+# string with one letter per event, so an input may bind what the harness later unbinds.  After every change the
 # use is submitted again; the decision must follow the bindings that exist when THAT input is
 # compiled.  The first input is always a non-trivial pure-Python warm-up (so per-session caches of
 # the Execer / transformer are populated before anything changes); first == "WC" additionally
@@ -453,7 +454,24 @@ TAIL_ORDER = list(TAILS)
 
 HIST_WARM = 'w0 = mk("w0")\nw0 -l\nlen -w0 and m\nc9 = [v9 -l for v9 in xs]\n'
 HIST_FIRST = ("W", "WC")
-HIST_MODES = ("h", "s")
+def hist_modes(n, mixed=True):
+    """who makes each of the n changes: h = the harness between two inputs, s = an input (source).
+    Uniform strings first; mixed ones (an input binds, the harness unbinds, ...) on request."""
+    import itertools
+
+    out = ["h" * n, "s" * n]
+    if mixed:
+        out += [m for m in ("".join(t) for t in itertools.product("hs", repeat=n)) if m not in out]
+    return out
+
+
+def hist_valid(events):
+    state = set()
+    for ev in events:
+        if (ev[0] == "+") == (ev[1] in state):
+            return False
+        state ^= {ev[1]}
+    return True
 HIST_NAMES = ("n", "_")
 
 
@@ -505,9 +523,10 @@ def hist_steps(first, mode, events, u, f="head", name="n"):
             raise NotApplicable("the use has no command reading to start with")
         steps.append(["src", text + "\n", "cmd", expl])
     state = set()
-    for ev in events:
+    assert len(mode) == len(events), (mode, events)
+    for ev, md in zip(events, mode):
         op, x = ev[0], ev[1]
-        if mode == "h":
+        if md == "h":
             steps.append(["add" if op == "+" else "rem", x, name])
         else:
             steps.append(["src", _hist_source(op, x, name, sep), "py", None])
